@@ -181,7 +181,7 @@ class Handle:
         F = self._decl(name, sig)
         argk = sig.split(">")[0]
         assert len(argk) == len(args), (name, sig, len(args))
-        if self.kind == "sym" or any(symx.is_sym(a) for a in args):
+        if self.kind == "sym" or TOKEN_MODE[0] or any(symx.is_sym(a) for a in args):
             zs = []
             for k, a in zip(argk, args):
                 e = _z(a)
